@@ -241,7 +241,11 @@ def expectation(v, flavour, op):
                 for q in v.ends(l) if q != p and q in v.cps_of_service(b)
                 and v.typ(p) == 'ServicePort' and v.typ(q) == 'ServicePort']
         if len(trip) == 0:
-            return False, set(), {}, 'not peered'
+            # the repaired code accepts any service - x - link - y - service chain of `connects` edges: when x or y is
+            # a NODE port (e.g. a NIC's own service vs the service its port is connected to) it still deletes them
+            chain = [(p, l, q) for p in v.nb(a, 'connects') for l in v.nb(p, 'connects') if v.cls(l) == 'Link'
+                     for q in v.nb(l, 'connects') if q != p and b in v.nb(q, 'connects')]
+            return False, set(), {}, 'not peered node port' if chain else 'not peered'
         if len(trip) > 1:
             return False, None, {}, 'peered more than once'
         p, l, q = trip[0]
